@@ -283,6 +283,29 @@ def _kind(U, t):
   return {b._Eq: "Eq", b._And: "And", b._Or: "Or"}.get(t.__class__, "other")
 
 
+class _R:
+  """repr() that cannot raise (a corrupted term may contain itself)."""
+
+  def __init__(self, x):
+    self.x = x
+
+  def __repr__(self):
+    try:
+      return repr(self.x)
+    except Exception as e:  # pylint: disable=broad-except
+      return "<%s whose repr raised %s>" % (type(self.x).__name__, type(e).__name__)
+
+
+def _hashes(kids):
+  out = []
+  for k in kids:
+    try:
+      out.append(hash(k))
+    except Exception:  # pylint: disable=broad-except
+      out.append(None)
+  return out
+
+
 def judge(U, t, exp, what):
   """Compare a built term with its expected truth table and the normal form."""
   bad = []
@@ -290,13 +313,15 @@ def judge(U, t, exp, what):
     got = U.tt(t)
   except Malformed as e:
     return ["%s returned a malformed term: %s" % (what, e)]
+  except RecursionError:
+    return ["%s returned a term that contains itself" % what]
   if got != exp:
     s = U.witness(got ^ exp)
     bad.append("%s returned %r, which is %s under %s where the plain connective is %s"
-               % (what, t, bool(got & ~exp), s, bool(exp & ~got)))
+               % (what, _R(t), bool(got & ~exp), s, bool(exp & ~got)))
   e = U.nf(t)
   if e:
-    bad.append("%s returned %r, not in normal form: %s" % (what, t, e))
+    bad.append("%s returned %r, not in normal form: %s" % (what, _R(t), e))
   return bad
 
 
@@ -312,13 +337,13 @@ def make_eq(U, l, r):
     return None, exp, ["%s raised %s: %s" % (what, type(e).__name__, e)]
   bad = judge(U, t, exp, what)
   if l == r and t is not b.TRUE:
-    bad.append("%s is reflexive but came back as %r, not TRUE" % (what, t))
+    bad.append("%s is reflexive but came back as %r, not TRUE" % (what, _R(t)))
   try:
     same = (t is t2) or (t == t2 and hash(t) == hash(t2))
   except Exception as e:  # pylint: disable=broad-except
     same = False
   if not same:
-    bad.append("%s = %r but Eq(%r, %r) = %r: argument order changes the term" % (what, t, r, l, t2))
+    bad.append("%s = %r but Eq(%r, %r) = %r: argument order changes the term" % (what, _R(t), r, l, _R(t2)))
   return t, exp, bad
 
 
@@ -335,18 +360,24 @@ def make_op(U, op, kids, kmasks, specs=None):
     for m in kmasks:
       exp |= m
     fn = b.Or
+  before = _hashes(kids)
   try:
     t = fn(list(kids))
   except Exception as e:  # pylint: disable=broad-except
-    what = show([op, specs]) if specs is not None else "%s(%r)" % (op, kids)
+    what = show([op, specs]) if specs is not None else "%s(%r)" % (op, _R(kids))
     return None, exp, ["%s raised %s: %s" % (what, type(e).__name__, e)]
+  if _hashes(kids) != before:
+    # the constructor altered one of its operands (terms are shared: every other term holding that operand changed too)
+    what = show([op, specs]) if specs is not None else "%s(%r)" % (op, _R(kids))
+    i = [a == b for a, b in zip(before, _hashes(kids))].index(False)
+    return None, exp, ["%s modified its operand #%d in place (now %r)" % (what, i, _R(kids[i]))]
   # hot path: one traversal gives truth table and normal form together
   try:
     if U.ev(t) == exp:
       return t, exp, ()
   except Exception:  # pylint: disable=broad-except
     pass
-  what = show([op, specs]) if specs is not None else "%s(%r)" % (op, kids)
+  what = show([op, specs]) if specs is not None else "%s(%r)" % (op, _R(kids))
   return t, exp, judge(U, t, exp, what)
 
 
@@ -390,10 +421,10 @@ def simplify_one(U, t, mt, tab, drawn, spec):
   if d:
     a = U.witness(d)
     bad.append("%s returned %r, which is %s under %s (drawn from the table) where the term is %s"
-               % (what, s, bool(ms & d & -d), a, bool(mt & d & -d)))
+               % (what, _R(s), bool(ms & d & -d), a, bool(mt & d & -d)))
   e = U.nf(s)
   if e:
-    bad.append("%s returned %r, not in normal form: %s" % (what, s, e))
+    bad.append("%s returned %r, not in normal form: %s" % (what, _R(s), e))
   return s, bad
 
 
@@ -523,7 +554,7 @@ def atoms(U, stats, viol):
       st.add(U, t, exp, spec, stats, viol)
     except Exception as e:  # pylint: disable=broad-except
       stats["nviol"] += 1
-      viol.append(("hash/== of %r raised %s" % (t, e), mkcase(U, spec)))
+      viol.append(("hash/== of %r raised %s" % (_R(t), e), mkcase(U, spec)))
   return st
 
 
@@ -544,7 +575,7 @@ def lists_level(U, pool, maxlen, stats, viol, into=None):
         stats["built"] += 1
         spec = lambda: [op, [pool.specs[i] for i in idx]]  # pylint: disable=cell-var-from-loop
         if bad:
-          _, _, bad = make_op(U, op, kids, [pool.masks[i] for i in idx], spec()[1])
+          bad = make_op(U, op, kids, [pool.masks[i] for i in idx], spec()[1])[2] or bad
           stats["nviol"] += 1
           if len(viol) < MAXV:
             viol.append((bad[0], mkcase(U, spec())))
@@ -557,7 +588,7 @@ def lists_level(U, pool, maxlen, stats, viol, into=None):
         except Exception as e:  # pylint: disable=broad-except
           stats["nviol"] += 1
           if len(viol) < MAXV:
-            viol.append(("hash/== of %r raised %s" % (t, e), mkcase(U, spec())))
+            viol.append(("hash/== of %r raised %s" % (_R(t), e), mkcase(U, spec())))
   return st
 
 
@@ -565,6 +596,7 @@ def lists_level(U, pool, maxlen, stats, viol, into=None):
 
 _CTX = {}   # set in the parent before the pool forks
 _VIOL = []  # (summary, case) gathered by the parent; reported smallest case first
+_CORRUPT = []  # set in a worker once a constructor modified a pooled operand in place
 
 
 def work(item):
@@ -580,6 +612,9 @@ def work(item):
   stats = new_stats()
   viol = []
   keys = []
+  if _CORRUPT:   # this process's copy of the shared pool was altered by a constructor (already reported)
+    stats["skipped_after_corruption"] = 1
+    return stats, viol, keys
   if kind == "simp":
     st = _CTX[uid, "store"]
     for i in range(item[2], item[3]):
@@ -609,10 +644,15 @@ def work(item):
             sa, sc = big.specs[i], small.specs[j]
             return [op, [sc, sa] if swapped else [sa, sc]]
           if bad:
-            _, _, bad = make_op(U, op, kids, masks, spec()[1])
+            bad = make_op(U, op, kids, masks, spec()[1])[2] or bad
             stats["nviol"] += 1
             if len(viol) < MAXV:
               viol.append((bad[0], mkcase(U, spec())))
+            if "modified its operand" in bad[0]:
+              # shared operands are now corrupted: nothing further in this process is meaningful
+              stats["local_distinct"] = len(local.terms)
+              _CORRUPT.append(bad[0])
+              return stats, viol, keys
           if t is None:
             continue
           k = kind_of.get(t.__class__, "other")
@@ -622,7 +662,7 @@ def work(item):
           except Exception as e:  # pylint: disable=broad-except
             stats["nviol"] += 1
             if len(viol) < MAXV:
-              viol.append(("hash/== of %r raised %s" % (t, e), mkcase(U, spec())))
+              viol.append(("hash/== of %r raised %s" % (_R(t), e), mkcase(U, spec())))
             continue
           if new:
             try:
@@ -681,6 +721,13 @@ def run_universe(rep, U, seed, tot, l2_simplify, depth3, label):
   add_stats(tot, stats)
   for summ, case in viol:
     _VIOL.append((summ, case))
+  if viol:
+    # broken constructors make deeper levels meaningless (and corrupted shared operands can make them explode)
+    rep.cap("%s: stopped after level<=1 because violations were found there" % label)
+    info = {"variables": list(U.vars), "values": list(U.vals), "distinct_atoms": n_atoms, "distinct_level<=1": n_l1,
+            "distinct_level<=2": 0, "simplify_on": "none (stopped)"}
+    rep.cov.setdefault("universes", {})[label] = info
+    return info
   # simplify on level <= 1, every table
   _CTX[uid, "store"] = l1
   _CTX[uid, "pool"] = l1
@@ -698,6 +745,9 @@ def run_universe(rep, U, seed, tot, l2_simplify, depth3, label):
     l2keys.update(keys)
     for summ, case in vi:
       _VIOL.append((summ, case))
+    if len(_VIOL) >= 200:
+      rep.cap("%s: stopped dispatching level-2 work after 200 violations" % label)
+      break
   info = {"variables": list(U.vars), "values": list(U.vals), "assignments": len(U.assigns),
           "tables": len(U.tables), "tables_nonempty": sum(1 for _, d in U.tables if d),
           "distinct_atoms": n_atoms, "distinct_level<=1": n_l1, "distinct_level<=2": len(l2keys),
